@@ -93,6 +93,7 @@ func (e *Engine) verifyFunc(fn *ssa.Function, ct *Contract, slice map[string]boo
 		}
 	}
 	results, final, retReach := vc.execFunc(fn, args, st, "true", 0, ct)
+	vc.targetFn, vc.paramVals, vc.resultVals = fn, args, results
 
 	te2 := vc.newTEnv(final, vc.entry, te.pkg)
 	te2.vars = te.vars
